@@ -803,6 +803,32 @@ func headerNumberLadder() []ACase {
 	return out
 }
 
+// caseLengthNames: record-type names with letters whose upper- or lower-case form has another length in UTF-8 than the
+// letter itself (ı ſ ι-with-prosgegrammeni Ɐ-family …), alone and around the `[n]` of an UNKNOWN[n] name: whatever the
+// parser does with the case of a name, it answers with a message or an error.
+func caseLengthNames() []ACase {
+	letters := []string{"\u0131", "\u017f", "\u1fbe", "\u2c65", "\u2c66", "\u0250", "\u0251", "\u0271", "\u027d", "\u023a", "\u023e", "\u2c6f", "\u00df", "\u0149", "\u01f0", "\u0390", "\ufb00", "\u212a", "\u2126", "\u1e9e", "\u0130"}
+	var out []ACase
+	for _, l := range letters {
+		for _, k := range []int{1, 2, 3, 5, 8} {
+			for _, suf := range []string{"", "[1]", "[12345]", "[]", "[", "]", "[1", "1]"} {
+				for _, pre := range []string{"", "UNKNOWN", "unknown", "SYSCALL"} {
+					name := pre + strings.Repeat(l, k) + suf
+					c := mkACase("line", 0, "type="+name+" msg=audit(1.000:1): a=b")
+					c.Note = "case-length-name"
+					out = append(out, c)
+				}
+			}
+		}
+		for _, name := range []string{"UNKNOWN[" + l + "]", "unknown[1" + l + "]", l + "UNKNOWN[1]", "UNKNOWN" + l + "[1300]", "U" + l + "NKNOWN[1]"} {
+			c := mkACase("line", 0, "type="+name+" msg=audit(1.000:1): a=b")
+			c.Note = "case-length-name"
+			out = append(out, c)
+		}
+	}
+	return out
+}
+
 func corruptC04(rng *rand.Rand, c ACase) ACase {
 	line := c.input()
 	// the body must not be able to repair the header: use one without ( ) . :
@@ -1331,6 +1357,9 @@ func auparseFamily(ctx *Ctx) error {
 		for _, c := range headerNumberLadder() {
 			run(c, true, true, "header-number-ladder")
 		}
+		for _, c := range caseLengthNames() {
+			run(c, false, true, "case-length-name")
+		}
 		var types []int
 		for t := 0; t < 65536; t++ {
 			name := auparse.AuditMessageType(t).String()
@@ -1473,6 +1502,9 @@ func auparseFamily(ctx *Ctx) error {
 		res.Rule = "log lines from /repo's testdata mutated by splice/truncate/byte-flip/insert with a dictionary of the tokens the parser looks for, arbitrary bytes, and fixed lines under every decoded record type (thorough: all 65536); every case runs ParseLogLine or Parse+Data+Tags+ToMapStr twice under recover and a watchdog; a sample is also answered by the model. Non-trivial = the input parses past the header (Data() is reached) or is a mutated header; distinct by input bytes."
 		for _, c := range headerNumberLadder() {
 			run(c, true, true, "header-number-ladder")
+		}
+		for _, c := range caseLengthNames() {
+			run(c, false, true, "case-length-name")
 		}
 		n := ctx.N(120000, 3000000)
 		for i := 0; i < n && res.NumViolations() < 5; i++ {
